@@ -270,6 +270,8 @@ def e14_ctor_fn(text):
 
 
 def common_body_edits(p):
+    p.sub("E2", r"!(\w+)\.is_ffi_safe\(\)", r"!__is_ffi_safe(\1)", count=None, why="TypeName::is_ffi_safe: contract proved in unit ffi_safe")
+    p.sub("E6", r"[ \t]*let ffisafe = \w+\.ffi_safe_version\(\);\n", "", count=None, why="only used in the error message")
     p.fn("E6", e6_messages, why="error message text dropped; error presence kept")
     p.fn("E5", rule_panics, why="panic site becomes an obligation: unreachable")
     p.fn("E10", e10_closures, why="closure capturing &mut unfolded to a match (definition of Option::map)")
